@@ -88,7 +88,12 @@ def piece_strategy(tier):
         "kind": st.just("rect"), "x": coord, "y": coord,
         "w": st.integers(1, 21), "h": st.integers(1, 21),
         "cores": cores_strategy()})
-    options = [sparse, rect] + [block(s) for s in levels]
+    # a chip listed with no cores at all (build_application_map produces
+    # this for a vertex without cores)
+    empty = st.fixed_dictionaries({
+        "kind": st.just("chip"), "x": coord, "y": coord,
+        "cores": st.just([])})
+    options = [sparse, rect, empty] + [block(s) for s in levels]
     if tier == "thorough":
         options.append(block(64))
         options.append(st.fixed_dictionaries({
@@ -115,6 +120,7 @@ def build_targets(case):
     for p in case["pieces"]:
         cores = set(p["cores"])
         if p["kind"] == "chip":
+            # (an empty core list still lists the chip)
             targets.setdefault((p["x"], p["y"]), set()).update(cores)
         elif p["kind"] == "rect":
             for x in range(p["x"], min(256, p["x"] + p["w"])):
